@@ -51,7 +51,12 @@ func (l *l2Loop) run(maxSteps int, done func() bool) *core.Violation {
 		var st []l2Stim
 		for _, g := range simrt.Runnable() {
 			g := g
-			st = append(st, l2Stim{"run " + g.Name, 10, func() { simrt.Resume(g) }})
+			st = append(st, l2Stim{"run " + g.Name, 10, func() {
+				if l.r.KeepLog {
+					l.r.Logf("    step %d: run %s", l.s.Step, g)
+				}
+				simrt.Resume(g)
+			}})
 		}
 		for _, c := range l.s.Pending() {
 			c := c
@@ -116,10 +121,27 @@ func (l *l2Loop) drain(rounds int, done func() bool) {
 		}
 		for _, c := range l.s.Pending() {
 			l.s.Complete(c, nil)
+			l.s.Settle() // one woken goroutine at a time: two running at once would race for the choice stream
 			moved = true
 		}
 		if !moved {
 			time.Sleep(5 * time.Second)
+		}
+	}
+}
+
+// drainNoComplete resumes runnable goroutines in turn (no parked call is completed, no time passes)
+// until nothing is runnable: everything delivered so far has then been consumed.
+func (l *l2Loop) drainNoComplete(rounds int) {
+	for i := 0; i < rounds; i++ {
+		l.s.Settle()
+		rs := simrt.Runnable()
+		if len(rs) == 0 {
+			return
+		}
+		for _, g := range rs {
+			simrt.Resume(g)
+			l.s.Settle()
 		}
 	}
 }
